@@ -364,6 +364,35 @@ func CheckMain(id, tier string) int {
 		pl[0]++
 		agg.PerLevel[c.Level(i)] = pl
 	}
+	// Harness self-test: one fixed case is executed twice in fresh processes; what the harness observed must be
+	// identical, otherwise the harness itself is nondeterministic and nothing it reports can be trusted (exit 2).
+	if n > 0 && os.Getenv("VERIF_NO_SELFTEST") == "" {
+		si := 1
+		if n == 1 {
+			si = 0
+		}
+		r1, e1 := runCaseSub(id, tier, seed, si)
+		r2, e2 := runCaseSub(id, tier, seed, si)
+		sig := func(r Result) string {
+			st := append([]string{}, r.States...)
+			sort.Strings(st)
+			var fps []string
+			for _, v := range r.Violations {
+				fps = append(fps, v.Fingerprint())
+			}
+			sort.Strings(fps)
+			return fmt.Sprintf("%s|%d|%v|%v|%s", r.Outcome, r.Transitions, st, fps, r.Err)
+		}
+		if e1 != nil || e2 != nil {
+			if !meta.DeathIsViolation {
+				fmt.Fprintf(os.Stderr, "HARNESS-ERROR: self-test case %d could not be executed: %v %v\n", si, e1, e2)
+				return 2
+			}
+		} else if sig(r1) != sig(r2) && meta.MinRepro == 0 {
+			fmt.Fprintf(os.Stderr, "HARNESS-ERROR: self-test: case %d executed twice gave different observations\n %s\n %s\n", si, sig(r1), sig(r2))
+			return 2
+		}
+	}
 	nw := nworkers()
 	if nw > n {
 		nw = n
